@@ -486,7 +486,7 @@ def main(argv):
         hk = ck.harness("h_kernelargs")
         if hk:
             if ck.tier == "quick":
-                run_kernels(ck, hk, db, nfiles=3, nk=10, nargs=5)
+                run_kernels(ck, hk, db, nfiles=3, nk=8, nargs=5)
             else:
                 run_kernels(ck, hk, db, nfiles=12, nk=20, nargs=12)
     ck.finish(META["level_text"])
